@@ -130,6 +130,7 @@ static void index_array(rng_t *r, UINT32 *idx, int n, int src)
 }
 /* the insertion-hint table of copyrows_opt is an IN parameter: one zeroed, read-only table per sequence, handed to every call */
 static of_mod2entry **g_hint;
+static int g_keep_dest;     /* the _opt variants do not clear the destination: the result is the union with what it held */
 static void m_copyrows(int a, int b, rng_t *r, int opt)
 {	/* needs cols(b) >= cols(a); opt variant needs an empty destination */
 	smat_t *A = &g_m[a], *B = &g_m[b]; UINT32 rows[MAXD];
@@ -139,8 +140,8 @@ static void m_copyrows(int a, int b, rng_t *r, int opt)
 	int hinted = opt && g_hint && rng_below(r, 2);
 	LIB_ENTER(); if (opt) of_mod2sparse_copyrows_opt(A->m, B->m, rows, hinted ? g_hint : NULL); else of_mod2sparse_copyrows(A->m, B->m, rows); LIB_LEAVE();
 	if (hinted) { rep_count("copyrows_opt_calls_with_a_caller_hint_table", 1); if (ar_check(g_hint)) vio("model", "the caller's IN-only hint table was modified by copyrows_opt"); }
-	memset(B->M, 0, sizeof B->M);
-	for (int i = 0; i < B->R; i++) memcpy(B->M[i], A->M[rows[i]], (size_t)A->C);
+	if (!(opt && g_keep_dest)) memset(B->M, 0, sizeof B->M);
+	for (int i = 0; i < B->R; i++) for (int j = 0; j < A->C; j++) if (A->M[rows[i]][j]) B->M[i][j] = 1; else if (!(opt && g_keep_dest)) B->M[i][j] = 0;
 	g_ops++;
 }
 static void m_copycols(int a, int b, rng_t *r, int opt)
@@ -149,8 +150,8 @@ static void m_copycols(int a, int b, rng_t *r, int opt)
 	index_array(r, cols, B->C, A->C);
 	g_lastop = opt ? "copycols_opt" : "copycols";
 	LIB_ENTER(); if (opt) of_mod2sparse_copycols_opt(A->m, B->m, cols); else of_mod2sparse_copycols(A->m, B->m, cols); LIB_LEAVE();
-	memset(B->M, 0, sizeof B->M);
-	for (int j = 0; j < B->C; j++) for (int i = 0; i < A->R; i++) B->M[i][j] = A->M[i][cols[j]];
+	if (!(opt && g_keep_dest)) memset(B->M, 0, sizeof B->M);
+	for (int j = 0; j < B->C; j++) for (int i = 0; i < A->R; i++) if (A->M[i][cols[j]]) B->M[i][j] = 1;
 	g_ops++;
 }
 static void m_copy_filled(int a, int b)
@@ -353,9 +354,9 @@ static void random_sequence(rng_t *r, int len, int maxdim, int dense_fill)
 		else if (op < 70) { if (k != 0) m_copy(0, k); else m_copy(0, 1); k = k ? k : 1; }
 		else if (op < 75) { int b = 1 + (int)rng_below(r, 2); m_copyrows(0, b, r, 0); k = b; }
 		else if (op < 80) { int b = 1 + (int)rng_below(r, 2); m_copycols(0, b, r, 0); k = b; }
-		else if (op < 84) { int b = 1 + (int)rng_below(r, 2); m_clear(b); /* documented use of the _opt variants: empty destination */
-				    if (g_viol_total == viol0) { check(&g_m[b], 0); m_copyrows(0, b, r, 1); } k = b; }
-		else if (op < 88) { int b = 1 + (int)rng_below(r, 2); int Rb = g_m[b].R, Cb = g_m[b].C; m_free(b); m_alloc(b, Rb, Cb); m_copycols(0, b, r, 1); k = b; }
+		else if (op < 84) { int b = 1 + (int)rng_below(r, 2); g_keep_dest = (int)rng_below(r, 2); if (!g_keep_dest) m_clear(b); /* the _opt variants add to what the destination holds */
+				    if (g_viol_total == viol0) { check(&g_m[b], 0); m_copyrows(0, b, r, 1); } g_keep_dest = 0; k = b; }
+		else if (op < 88) { int b = 1 + (int)rng_below(r, 2); int Rb = g_m[b].R, Cb = g_m[b].C; g_keep_dest = (int)rng_below(r, 2); if (!g_keep_dest) { m_free(b); m_alloc(b, Rb, Cb); } m_copycols(0, b, r, 1); g_keep_dest = 0; k = b; }
 		else if (op < 92) { int b = 1 + (int)rng_below(r, 2); m_copy_filled(0, b); k = b; }
 		else if (op < 96) { int b = 1 + (int)rng_below(r, 2); m_roundtrip(0, b, r); k = b; }
 		else { int Rk = s->R, Ck = s->C; m_free(k); m_alloc(k, Rk, Ck); }
